@@ -32,7 +32,8 @@ class Files:
         self.gfa = {"gfa": os.path.join(d, "g.gfa"), "gfa.gz": os.path.join(d, "g.gfa.gz")}
         with open(self.gfa["gfa"], "w") as f:
             f.write("\n".join(data["gfa"]) + "\n")
-        T.gzip_copy(self.gfa["gfa"], self.gfa["gfa.gz"])
+        # every second data set gets a two-member gzip file (as bgzip / concatenation produce), added after seeded change C17/2
+        T.gzip_copy(self.gfa["gfa"], self.gfa["gfa.gz"], members=2 if len(data["gfa"]) % 2 == 0 else 1)
         self.u = self._pair("u", data["gaf"])
         self._s = None
         self.fasta = os.path.join(d, "reads.fa")
